@@ -8,6 +8,7 @@ import BVM.Model.Rt
 import BVM.Model.Api
 import BVM.Model.Tsdl
 import BVM.Model.Meta
+import BVM.Model.Decode
 import Driver.Front
 open Lean BVM
 
@@ -271,6 +272,16 @@ def handleLayout (cfg : Cfg) (o : GenOpts) (j : Json) : Option String :=
       match decodePacket cfg d (ofHex (getStr j "hex")) with
       | some p => showPacket p
       | none => "undecodable"
+  | "rtpre" =>
+    -- the executable precondition of `record_roundtrip` (Props/C01) on the three user roots of one traced record
+    dst.map fun d =>
+      let env : SerEnv := { bo := cfg.bo, fast := cfg.fast, uuid := [], dstId := 0, ertId := 0, ts := 0, pktSize := 0, seqNum := 0 }
+      let args := argsOf ((j.getObjVal? "args").toOption.getD .null)
+      let f := fun (pfx : String) (S : Option Struct) => match S with
+        | none => "-"
+        | some S => b01 (rootPreb env (getNat j "buf") pfx args S 0)
+      let e := ertOf d
+      "cc=" ++ f "cc" d.ercc ++ " sc=" ++ f "sc" (e.bind (·.sc)) ++ " p=" ++ f "p" (e.bind (·.p))
   | "ctype" =>
     some (if getStr j "k" == "real" then scalarCName (.real (getNat j "sz") (getNat j "al"))
           else cIntName (getBool j "s") (getNat j "sz"))
